@@ -254,12 +254,16 @@ FallOff  == /\ Len(Kont) = 1 /\ AtEnd
             /\ DoReturn(IF Act.self.t = "ref" /\ RowOf(Act.m).name = "__init__" THEN Act.self ELSE VNone)
 
 (* ---- expressions ---- *)
+RECURSIVE RepStr(_, _)
+RepStr(t, n) == IF n <= 0 THEN "" ELSE t \o RepStr(t, n - 1)
 BinOp(op, a, b) ==
   CASE op = "+" -> IF IsNum(a) /\ IsNum(b) THEN VInt(AsInt(a) + AsInt(b))
                    ELSE IF a.t = "str" /\ b.t = "str" THEN VStr(a.s \o b.s) ELSE VUndef
     [] op = "-" -> IF IsNum(a) /\ IsNum(b) THEN VInt(AsInt(a) - AsInt(b)) ELSE VUndef
     [] op = "*" -> IF IsNum(a) /\ IsNum(b)
                    THEN (IF Abs(AsInt(a)) < 32768 /\ Abs(AsInt(b)) < 32768 THEN VInt(AsInt(a) * AsInt(b)) ELSE [t |-> "overflow"])
+                   ELSE IF a.t = "str" /\ b.t = "int" /\ b.i <= 8 THEN VStr(RepStr(a.s, b.i))
+                   ELSE IF b.t = "str" /\ a.t = "int" /\ a.i <= 8 THEN VStr(RepStr(b.s, a.i))
                    ELSE VUndef
     [] op = "==" -> VBool(VEq(a, b))
     [] op = "!=" -> VBool(~VEq(a, b))
@@ -397,7 +401,7 @@ CallValue(f, pos, named, target) ==
                 /\ stack' = WithKont(AdvK(Kont)) /\ heap' = heap /\ out' = out /\ steps' = steps + 1
                 /\ envs' = IF target = "" THEN envs ELSE SetVar(envs, Act.ser, target, VNone)
                 /\ sinks' = sinks \cup (IF Len(pos) = 0 THEN {} ELSE {<<s, Cur.id>> : s \in Val(pos[1]).tg})
-                /\ UNCHANGED <<c, status, nser>>
+                /\ UNCHANGED <<c, status, nser, calls, defs>>
            [] f.s = "choice" -> \E b \in BOOLEAN : GoK(AdvK(Kont), SetVar(envs, Act.ser, target, VBool(b)), heap, out)
            [] OTHER -> Fail("builtin_" \o f.s)
     [] OTHER -> Fail("call_of_non_callable_" \o ToString(Cur.id))
@@ -506,6 +510,34 @@ Plain(v) == CASE v.t = "int" -> [t |-> "int", i |-> v.i]
               [] OTHER -> [t |-> v.t]
 OutPlain == [j \in 1..Len(out) |-> [k \in 1..Len(out[j]) |-> Plain(out[j][k])]]
 Missed == sinks \ {<<Case(c).flows[j][1], Case(c).flows[j][2]>> : j \in 1..Len(Case(c).flows)}
+(* C08: every definition event is covered by the abstract states lian computed for that statement and name.
+   Case(c).abs : sequence of [s, n, idx (state indexes, all analysis contexts united)]
+   Case(c).states : sequence indexed by lian's state index + 1 of [k, i, s, site, fields (sequence of [name, idx]), elems (indexes)]
+   k: "int" | "str" | "bool" | "none" | "fun" | "cls" | "obj" | "unknown" (UNSOLVED / ANYTHING) | "other" *)
+AbsEntries(stmt, name) == {x \in 1..Len(Case(c).abs) : Case(c).abs[x].s = stmt /\ Case(c).abs[x].n = name}
+StateAt(ix) == Case(c).states[ix + 1]
+FieldIdx(st, f) == UNION {ToSet(st.fields[j].idx) : j \in {x \in 1..Len(st.fields) : st.fields[x].name = f}}
+(* lian's reading rule: a state index stands for the newest copies of its state id that leave the statement (nm: state id -> indexes) *)
+Newest(ixs, nm) == UNION {LET hit == {j \in 1..Len(nm) : nm[j].sid = StateAt(ix).sid} IN
+                          IF hit = {} THEN {ix} ELSE UNION {ToSet(nm[j].idx) : j \in hit} : ix \in ixs}
+RECURSIVE Covers(_, _, _, _)
+Covers(idxs, v, d, nm) ==
+  \E ix \in idxs :
+    LET st == StateAt(ix) IN
+    \/ st.k = "unknown"
+    \/ v.t = "int"  /\ st.k = "int"  /\ st.i = v.i
+    \/ v.t = "bool" /\ st.k \in {"bool", "int"} /\ st.i = v.i
+    \/ v.t = "str"  /\ st.k = "str"  /\ v.s \in {st.s, st.s2}       \* s2: the same text with escape sequences decoded
+    \/ v.t = "none" /\ st.k = "none"
+    \/ v.t = "fun"  /\ st.k = "fun"  /\ st.i = v.i
+    \/ v.t = "cls"  /\ st.k = "cls"  /\ st.i = v.i
+    \/ /\ v.t = "ref" /\ st.k = "obj" /\ st.site = v.site
+       /\ (d = 0 \/ ( /\ \A fv \in v.fields : Covers(Newest(FieldIdx(st, fv[1]), nm), fv[2], d - 1, nm)
+                      /\ \A j \in 1..Len(v.elems) : Covers(Newest(ToSet(st.elems), nm), v.elems[j], d - 1, nm)))
+CoveredDef(d) == \E x \in AbsEntries(d.s, d.n) : Covers(ToSet(Case(c).abs[x].idx), d.v, 2, Case(c).abs[x].nm)
+Judged(d) == d.v.t \in {"int", "bool", "str", "fun", "cls", "ref"}     \* None and other tags are not judged
+Uncovered == IF Case(c).check = "values" THEN {d \in defs : Judged(d) /\ ~CoveredDef(d)} ELSE {}
+
 (* C07: every call that happened is a call edge of the analysis, and the callee was analysed under that call site *)
 TripleSet(xs) == {<<xs[j][1], xs[j][2], xs[j][3]>> : j \in 1..Len(xs)}
 MissedEdges == IF Case(c).check = "calls" THEN calls \ TripleSet(Case(c).edges) ELSE {}
@@ -513,7 +545,7 @@ NotAnalysed == IF Case(c).check = "calls" THEN calls \ TripleSet(Case(c).analyse
 Verdict == IF status = "done" /\ Case(c).check = "taint" THEN (IF Missed = {} THEN "" ELSE "flow_missed")
            ELSE IF status = "done" /\ Case(c).check = "calls" THEN
                   (IF MissedEdges # {} THEN "call_edge_missing" ELSE IF NotAnalysed # {} THEN "callee_not_analysed_under_call_site" ELSE "")
-           ELSE IF status = "done" /\ Case(c).check = "values" THEN ""
+           ELSE IF status = "done" /\ Case(c).check = "values" THEN (IF Uncovered = {} THEN "" ELSE "value_not_covered")
            ELSE IF status = "done" THEN (IF OutPlain = Case(c).expected THEN "" ELSE "output_differs")
            ELSE IF status = "run" /\ steps >= MaxSteps THEN "diverges"
            ELSE IF status = "skip:overflow" THEN "skipped_overflow"
@@ -523,7 +555,7 @@ Report == Finished =>
             PrintT("@@" \o ToJson([case |-> Case(c).name, clause |-> Verdict, got |-> IF Verdict = "" THEN << >> ELSE OutPlain, steps |-> steps,
                                    observed |-> sinks, missed |-> IF Case(c).check = "taint" /\ status = "done" THEN Missed ELSE {},
                                    calls |-> IF Case(c).check \in {"calls", "values"} THEN calls ELSE {},
-                                   missed_edges |-> MissedEdges, not_analysed |-> NotAnalysed,
+                                   missed_edges |-> MissedEdges, not_analysed |-> NotAnalysed, uncovered |-> Uncovered,
                                    defs |-> IF Case(c).check = "values" THEN defs ELSE {}]))
 ReportConstraint == Report
 =============================================================================
